@@ -1482,6 +1482,11 @@ class RTCSctpTransport(AsyncIOEventEmitter):
             for stream_id in list(self._data_channels.keys()):
                 self._data_channel_closed(stream_id)
 
+            # close data channels which are still waiting for a stream id
+            queue, self._data_channel_queue = self._data_channel_queue, deque()
+            for channel, _, _ in queue:
+                channel._setReadyState("closed")
+
             # no more events will be emitted, so remove all event listeners
             # to facilitate garbage collection.
             self.remove_all_listeners()
